@@ -503,6 +503,63 @@ def w13(ctx, rid):
         ctx.ok(rid, 'tools-accept-old-versions|scan', '', '%d blob header validations in the tools, all version-tolerant' % n, queries=n)
 
 
+def w15(ctx, rid):
+    """a tool run that reports success has produced an output blob: recovery of any input - also one without a single intact
+    record - leaves a blob that validates (header written), and in-place recovery does not end with the original path missing"""
+    prog = ctx.prog
+    f = prog.fns.get('tools::utils::process_blob_with')
+    if f is None:
+        raise core.AnchorLost('process_blob_with')
+    creates = [c for c in f.calls if any(t == 'tools::blob_writer::BlobWriter::from_path' for t in prog.resolve(c))]
+    if not creates:
+        raise core.AnchorLost('BlobWriter::from_path call')
+    # every success of the tool has produced an output blob (header written): no ok return around the writer
+    key2 = 'output-always-produced|tools::utils::process_blob_with'
+    wh = [c for c in f.calls if c.name == 'write_header' and 'BlobWriter' in c.path]
+    need = [core.ok_block(f, c) for c in creates + wh]
+    if not wh or any(x is None for x in need):
+        raise core.AnchorLost('BlobWriter::write_header call / ok edges in process_blob_with')
+    oks = [bb for (bb, k, _) in core.exit_defs(f) if k == 'ok']
+    if not oks:
+        raise core.AnchorLost('ok return of process_blob_with')
+    around = None
+    for nb in need:
+        free = f.reach_from([0], avoid_enter=[nb])
+        hit = [bb for bb in oks if bb in free]
+        if hit:
+            around = hit[0]
+    if around is not None:
+        ctx.bad(rid, key2, f.where(around), 'process_blob_with can return Ok without having created the output blob and written its header: '
+                'recovery / migration of such an input reports success and leaves no (valid) output')
+    else:
+        ctx.ok(rid, key2, creates[0].where(), 'all %d ok return(s) pass the ok edges of BlobWriter::from_path and write_header' % len(oks))
+
+
+def w16(ctx, rid):
+    """the index tools load a file with a byte-wise key type chosen from the stored key size; its order need not be the order the
+    storage's key type sorted the leaves in.  The sequential loader therefore groups headers by a lookup of the key; it never
+    takes the map's last / first entry for `the previous header's key` (with a different order a second version of a key
+    would replace the versions collected so far and the tools would report fewer headers than the blob holds)"""
+    prog = ctx.prog
+    roots = [f for f in prog.fns.values() if f.id == prog.fns[f.id].root and f.id.endswith('::get_records_headers') and f.file.startswith('src/blob/index/bptree/')]
+    if not roots:
+        raise core.AnchorLost('bptree get_records_headers')
+    POS = ('last_entry', 'first_entry', 'last_key_value', 'first_key_value', 'pop_last', 'pop_first', 'last', 'first', 'last_mut', 'next_back')
+    for r in roots:
+        key = 'loader-groups-by-key|%s' % r.id
+        calls = [c for g in prog.family(r.id) for c in prog.fns[g].calls if c.bb in prog.fns[g].reachable()]
+        maps = [c for c in calls if 'BTreeMap' in c.full or 'btree_map' in c.full or 'btree::map' in c.full]
+        bykey = [c for c in maps if c.name in ('get_mut', 'entry', 'insert', 'get')]
+        if not bykey:
+            raise core.AnchorLost('by-key map access in %s' % r.id)
+        pos = [c for c in maps if c.name in POS]
+        if pos:
+            ctx.bad(rid, key, pos[0].where(), 'the sequential loader looks at a position of the map (`%s`) instead of looking the key up: with a key type '
+                    'whose order differs from the order the leaves were written in, versions of a key are dropped' % pos[0].name)
+        else:
+            ctx.ok(rid, key, bykey[0].where(), 'headers grouped by key lookup (%s); no positional map access' % sorted({c.name for c in bykey}))
+
+
 def w14(ctx, rid):
     """the output writer re-validates exactly what it wrote since the last round: whenever records leave its cache (clear, drain,
     take ..) the byte counter of the cached records is reset in the same function - otherwise the next round seeks to the
@@ -551,5 +608,7 @@ RULES = [
     Rule('C16.W12', 'record counts reported by the tools are never the entry count of a key-indexed map', w12, 2),
     Rule('C16.W13', 'the tools validate blob headers version-tolerantly (no strict Header::validate in src/tools)', w13, 1),
     Rule('C16.W14', 'the output writer resets its cached-bytes counter wherever records leave its cache', w14, 1),
+    Rule('C16.W15', 'every ok return of the recovery / migration driver passes the creation of the output and the write of its header', w15, 1),
+    Rule('C16.W16', 'the sequential index loader groups headers by key lookup, never by map position (tools load with a byte-wise key order)', w16, 1),
     Rule('C16.W7', 'the index tools load through the validating loader and validate every reported header', w7, 2),
 ]
